@@ -16,6 +16,9 @@ def check(run):
             for pos in range(0, len(e.replies) + 1):
                 sc = h.build((j, pos, "silence"))
                 scs.append(sc); meta.append(("stall", h, j, pos))
+                # ... and the stream ENDING there: inside a packet (header and part of the body arrived) or on a packet boundary
+                for kind in ("truncated", "close"):
+                    scs.append(h.build((j, pos, kind))); meta.append(("stall-" + kind, h, j, pos))
     # (1b) a packet arriving exactly at / just before / just after its deadline, at every position (the boundary of the
     #      timeout computation); (1c) several stalls in one history, stalls inside reconnect handshakes included
     hs_all = histories(S, rng)
